@@ -53,7 +53,7 @@ GhostInit(S) ==
     agreed   |-> EmptyFn,                 \* index -> entry committed by the omniscient definition
     reported |-> EmptyFn,                 \* index -> entry that some server REPORTED committed (CommitIndex / FSM apply)
     grants   |-> {},                      \* <<voter, term, candidate>>
-    pendVT   |-> [n \in S |-> 0],         \* last value written to LastVoteTerm
+    dur      |-> [n \in S |-> <<0, 0, "">>],   \* durable <<CurrentTerm, LastVoteTerm, LastVoteCand>>, tracked write by write
     hpend    |-> [n \in S |-> <<>>],      \* handle lines not yet matched with a state line
     fsmLast  |-> [n \in S |-> 0],         \* last index handed to the FSM in this epoch
     fsmOpen  |-> [n \in S |-> <<0, 0>>],  \* snapshot last opened
@@ -296,7 +296,7 @@ DoState(ln) ==
                    i \in {k \in newAg : ag2[k][2] = "cmd" /\ \E j \in DOMAIN ag2 : j # k /\ ag2[j][2] = "cmd" /\ ag2[j][3] = ag2[k][3]}}
       vHole  == IF ~(Has(st, "log") \/ Has(st, "snaps")) THEN {} ELSE
                 {<<"C11", "Hole", <<n, i>>>> : i \in {k \in (SnapIdxOf(postSn) + 1)..DurableLast(postLog, postSn) : k \notin DOMAIN postLog}}
-      vLast  == IF post.up /\ post.last > DurableLast(postLog, postSn)
+      vLast  == IF post.up /\ ~Has(ln, "busy") /\ post.last > DurableLast(postLog, postSn)
                 THEN {<<"C11", "ReportedBeyondDurable", <<n, post.last, DurableLast(postLog, postSn)>>>>} ELSE {}
       vLead  == IF post.up /\ post.role = "F" /\ post.leader # "" /\ <<post.leader, post.term>> \notin g.leaders
                 THEN {<<"C18", "LeaderNeverLedThisTerm", <<n, post.leader, post.term>>>>} ELSE {}
@@ -305,15 +305,22 @@ DoState(ln) ==
       vInfl  == IF post.ct > pre.ct /\ sameInc /\ params.prevote /\ ~pre.xfer /\ ~post.xfer /\ post.ct > g.seenTerm[n]
                    /\ Cardinality({v \in Voters(tab, pre.cl) : v = n \/ <<n, post.ct, v>> \in g.pvGrants}) < QuorumSize(tab, pre.cl)
                 THEN {<<"C14", "TermRaisedWithoutPreVoteQuorum", <<n, pre.ct, post.ct, {x \in g.pvGrants : x[1] = n /\ x[2] = post.ct}>>>>} ELSE {}
+      \* a server that has durably recorded itself as the candidate voted for in its current term has voted for itself
+      selfV  == IF post.vc = n /\ post.vt = post.ct /\ post.vt > 0 /\ (post.vt # pre.vt \/ post.vc # pre.vc) /\ ~started
+                THEN {<<n, post.vt, n>>} ELSE {}
+      vSelf  == {<<"C06", "TwoVotesInTerm", <<n, x[2], x[3], n>>>> : x \in {y \in g.grants : selfV # {} /\ y[1] = n /\ y[2] = post.vt /\ y[3] # n}}
       vStart == IF started THEN RestartPreds(n, pre, post, postLog, postSn) ELSE {}
       hs     == IF ln.ev = "state" THEN g.hpend[n] ELSE <<>>
       clean  == Has(ln, "clean") /\ ln.clean
       vStep  == IF Len(hs) = 1 /\ clean THEN StepPreds(n, hs[1], pre, preLog, post, postLog, postSn) ELSE {}
       nc     == IF Len(hs) = 1 /\ clean /\ pre.up /\ post.up THEN Conformance(n, hs[1], pre, preLog, post, postLog) ELSE {}
-      V      == vSync \cup conf \cup vTerm \cup vCommit \cup vLog \cup vOnce \cup vHole \cup vLast \cup vLead \cup vInfl \cup vStart \cup vStep
+      V      == vSelf \cup vSync \cup conf \cup vTerm \cup vCommit \cup vLog \cup vOnce \cup vHole \cup vLast \cup vLead \cup vInfl \cup vStart \cup vStep
   IN
   /\ obs' = o2 /\ dlog' = dl2 /\ dsnaps' = ds2
   /\ g' = [g EXCEPT !.agreed = ag2, !.reported = rep2, !.hpend[n] = <<>>, !.slog[n] = postLog,
+                    !.dur[n] = <<post.ct, post.vt, post.vc>>,
+                    \* the vote record of the image a server is FIRST started from is a vote it has cast
+                    !.grants = (IF started /\ pre.inc = 0 /\ post.vc # "" THEN @ \cup {<<n, post.vt, post.vc>>} ELSE @) \cup selfV,
                     !.everSeen = IF Has(st, "log") THEN @ \cup {postLog[i][3] : i \in DOMAIN postLog} ELSE @]
   /\ Judge(V, nc)
   /\ UNCHANGED hdr
@@ -380,9 +387,13 @@ DoStore(ln) ==
   LET n == ln.n
       isVT == ln.op = "stableset" /\ Has(ln, "key") /\ ln.key = "LastVoteTerm" /\ Has(ln, "ival")
       isVC == ln.op = "stableset" /\ Has(ln, "key") /\ ln.key = "LastVoteCand" /\ Has(ln, "sval")
-      gr == IF isVC /\ ln.sval = n THEN {<<n, g.pendVT[n], n>>} ELSE {}
-      V  == {<<"C06", "TwoVotesInTerm", <<n, x[2], x[3], n>>>> :
-               x \in {y \in g.grants : gr # {} /\ y[1] = n /\ y[2] = g.pendVT[n] /\ y[3] # n}}
+      isCT == ln.op = "stableset" /\ Has(ln, "key") /\ ln.key = "CurrentTerm" /\ Has(ln, "ival")
+      d2 == IF isCT THEN <<ln.ival, g.dur[n][2], g.dur[n][3]>>
+            ELSE IF isVT THEN <<g.dur[n][1], ln.ival, g.dur[n][3]>>
+            ELSE IF isVC THEN <<g.dur[n][1], g.dur[n][2], ln.sval>> ELSE g.dur[n]
+      \* the record now says: voted for myself in my current term
+      gr == IF (isVT \/ isVC) /\ d2[3] = n /\ d2[2] = d2[1] /\ d2[2] > 0 THEN {<<n, d2[2], n>>} ELSE {}
+      V  == {<<"C06", "TwoVotesInTerm", <<n, x[2], x[3], n>>>> : x \in {y \in g.grants : gr # {} /\ y[1] = n /\ y[2] = d2[2] /\ y[3] # n}}
       isSL == ln.op = "storelogs" /\ Has(ln, "entries")
       isDR == ln.op = "delrange" /\ ~Has(ln, "err")
       lg2  == IF isSL THEN [i \in {AEIdx(ln.entries[k]) : k \in 1..Len(ln.entries)} |->
@@ -399,7 +410,7 @@ DoStore(ln) ==
       \* dispatchLogs precedes commitment.setConfiguration), then switches: both are "in force" at this instant
       ag1  == IF isSL THEN FoldCommitted(obs, dl2, dsnaps, g.agreed, ActiveLeaders(obs)) ELSE g.agreed
       ag2  == IF isSL THEN FoldCommitted(o2, dl2, dsnaps, ag1, ActiveLeaders(o2)) ELSE g.agreed
-  IN /\ g' = [g EXCEPT !.pendVT[n] = IF isVT THEN ln.ival ELSE @, !.grants = @ \cup gr, !.agreed = ag2]
+  IN /\ g' = [g EXCEPT !.dur[n] = d2, !.grants = @ \cup gr, !.agreed = ag2]
      /\ dlog' = dl2 /\ obs' = o2
      /\ Judge(V \cup conf, {}) /\ UNCHANGED <<hdr, dsnaps>>
 
